@@ -16,6 +16,7 @@ import (
 	"strconv"
 	"strings"
 	"sync"
+	"sync/atomic"
 	"time"
 
 	frugal "github.com/Workiva/frugal/lib/go"
@@ -108,6 +109,18 @@ func attemptLateBurst(env *c13env, c c13case, callsPerCaller int, body []byte) *
 
 	callers := c.burstCallers()
 	results := make([][]*attempt, callers)
+	// Registration accounting at every return.  A registration exists only
+	// between the start of its Request and that Request's return, so at any
+	// instant  registry size <= calls started - calls returned.  The caller
+	// that has just come back reads "returned" (its own return included), then
+	// the registry size, then "started": returned can only grow and started
+	// can only grow, so started(after) - returned(before) is an upper bound of
+	// the calls in flight at the instant the size was read, whatever the
+	// scheduling.  A larger size means a call has returned and left its
+	// registration in the registry.
+	var started, returned atomic.Int64
+	var leftMu sync.Mutex
+	left, leftFirst := 0, ""
 	var wg sync.WaitGroup
 	burstStart := time.Now()
 	for g := 0; g < callers; g++ {
@@ -117,7 +130,20 @@ func attemptLateBurst(env *c13env, c c13case, callsPerCaller int, body []byte) *
 			for k := 0; k < callsPerCaller; k++ {
 				fctx, payload, want := newCtx(c, body)
 				fl := flagsOf(fctx.RequestHeaders()["_opid"])
-				r := invoke(callSpec{c: c, tr: tr, fctx: fctx, payload: payload, want: want, flags: fl, shared: true, release: func() {}})
+				started.Add(1)
+				r := invoke(callSpec{c: c, tr: tr, fctx: fctx, payload: payload, want: want, flags: fl, shared: true, release: func() {},
+					post: func() {
+						fin := returned.Add(1)
+						size := int64(frugal.VerifRegistrySize(tr))
+						if inflight := started.Load() - fin; size > inflight {
+							leftMu.Lock()
+							left++
+							if leftFirst == "" {
+								leftFirst = fmt.Sprintf("caller %d call %d (op id %s) back: registry size %d, at most %d calls in flight", g, k, fctx.RequestHeaders()["_opid"], size, inflight)
+							}
+							leftMu.Unlock()
+						}
+					}})
 				results[g] = append(results[g], r)
 				if !r.Returned {
 					return // wedged: this caller is gone
@@ -168,6 +194,9 @@ func attemptLateBurst(env *c13env, c c13case, callsPerCaller int, body []byte) *
 		a.MedianCall = time.Duration(els[len(els)/2]).Round(time.Microsecond).String()
 	}
 	a.BurstWall = burstWall.Round(time.Millisecond).String()
+	leftMu.Lock()
+	a.CallsRegLeft, a.RegLeftWitness = left, leftFirst
+	leftMu.Unlock()
 	if a.TimedOut {
 		a.ErrClass = fmt.Sprintf("TTransportException(type=%d)", frugal.TRANSPORT_EXCEPTION_TIMED_OUT)
 	}
@@ -195,9 +224,10 @@ type hookGate struct {
 	park    map[uint64]chan struct{} // released by closing
 	arrived map[uint64]chan struct{} // closed when the reader is parked
 	reg     map[uint64]chan struct{} // closed when the op id has been registered
+	expired map[uint64]func()        // run in the calling goroutine at "request.timedOut", before Request returns
 }
 
-var c13gate = &hookGate{park: map[uint64]chan struct{}{}, arrived: map[uint64]chan struct{}{}, reg: map[uint64]chan struct{}{}}
+var c13gate = &hookGate{park: map[uint64]chan struct{}{}, arrived: map[uint64]chan struct{}{}, reg: map[uint64]chan struct{}{}, expired: map[uint64]func(){}}
 
 func (g *hookGate) hook(point string, opid uint64) {
 	switch point {
@@ -219,6 +249,14 @@ func (g *hookGate) hook(point string, opid uint64) {
 		g.mu.Unlock()
 		if r != nil {
 			close(r)
+		}
+	case "request.timedOut":
+		g.mu.Lock()
+		f := g.expired[opid]
+		delete(g.expired, opid)
+		g.mu.Unlock()
+		if f != nil {
+			f()
 		}
 	}
 }
